@@ -19,7 +19,8 @@ RULE = ("stream 'history': random sequences (4..14 steps) of store API operation
         "an abstract map kept by the harness. stream 'crash': (prefix history, operation, kill point j): a forked child opens the real store "
         "and dies (os._exit) just before its j-th traced write statement, for EVERY j of EVERY operation incl. after the last; the parent "
         "reopens the file; per record the recovered value must be the previous or the new one, and the content must equal the model's "
-        "crash(run(prefix j)). distinct = distinct (history, op, kill point).")
+        "crash(run(prefix j)). stream 'journal': the journal mode of the opened store's connection. stream 'otherkey': an operation on one key (second device, second sender, "
+        "neighbouring id, other contact) never costs the record under another key. distinct = distinct (history, op, kill point).")
 ASSUMPTIONS = ["SQLite's atomic commit: a transaction that was not committed when the process died is rolled back on reopen; a committed one is durable "
                "(power loss / fsync lies below SQLite are not exhibited)", "python-axolotl record (de)serialisation is the identity on the stored blobs"]
 EXHAUSTIVE = {"quick": False, "thorough": False}
